@@ -83,6 +83,12 @@ def main(run):
             run.bounded_run(f"float.sam[n={n},r={r}]", S.sc_sam, {"n": n, "reps": r},
                             list(bounded_inputs(run, n, cnt)) + list(family_inputs(run, n, cnt if n <= 5 else 2)), tol=1e-9,
                             bound=f"{cnt} seeded coverage-type SAM games + {cnt} games from covg/k_budget/xos/xs/oxs, random K, stale rows")
+    from rt import instances
+    from rt import gen as _gen
+    for n, v, K, R in instances.repetition_sensitive(run.rng, 2 if run.tier == "quick" else 8):
+        for r in (0, 1, 2, 10):
+            run.bounded_run(f"sensitive.sam[n={n},r={r}]", S.sc_sam, {"n": n, "reps": r}, [_gen.game_inputs(v, set(K), n, rng=run.rng)], tol=1e-9,
+                            bound="hand-picked instances on which repetitions change bounds, and relabellings")
     return run.finish(
         explanation="SAM approximation proved sound, never looser than the SA bounds (L, U), lower bounds monotone, upper "
                     "bounds consistent with known sub-/super-coalitions: unrolled for r=0,1,2 and - with the outer loop cut by "
